@@ -28,6 +28,7 @@ source; anything that no longer has a recognisable shape raises Untranslatable):
       state_task_weak_while_connected                  the state task drops its strong references
       recv_ends_on_close                               PeerConnection::recv
       shutdown_complete_closes                         CT_SHUTDOWN_COMPLETE handling
+      dc_listener_holds_weak                           the DataChannel listener never caches a strong PeerConnectionInner
   * shape checks without a boolean (Untranslatable when they fail): the steps of close_with_reason, Drop, close(),
     the ICE Failed/Closed arms, the DTLS closed/failed and grace-expiry branches, and that spawn_transport_loops
     builds its LoopsGuard outside the returned future (dropping that future un-polled must still abort the loops)
@@ -293,6 +294,17 @@ def gen_lifecycle():
     m.manifest.append({"item": "spawn_transport_loops builds its LoopsGuard eagerly", "file": PC})
     if not re.search(r"impl Drop for LoopsGuard \{ fn drop\(&mut self\) \{ for handle in self\.0\.drain\(\.\.\) \{ handle\.abort\(\); \} \} \}", npc):
         raise Untranslatable("LoopsGuard::drop no longer aborts every transport loop")
+    # the DataChannel listener (a transport loop owned by the connection) upgrades its weak reference for each
+    # announcement and lets the strong one go again: it must never keep the connection alive
+    mm = re.search(r"let dc_listener = async move \{(.*?)\}; let mut dc_listener:", npc)
+    if not mm:
+        raise Untranslatable("start_dtls: the DataChannel listener loop was not found")
+    lst = mm.group(1).strip()
+    flag(m, "dc_listener_holds_weak",
+         re.fullmatch(r"while let Some\(dc\) = dc_rx\.recv\(\)\.await \{ if let Some\(inner\) = inner_weak_dc\.upgrade\(\) \{ "
+                      r"let _ = inner\.event_tx\.send\(PeerConnectionEvent::DataChannel\(dc\)\); \} else \{ break; \} \}", lst) is not None
+         and re.search(r"let inner_weak_dc = inner_weak\.clone\(\);", npc) is not None,
+         "DataChannel listener holds only a weak reference to the connection", PC)
     _, _, sd = rs2v.find_fn(pc, "start_dtls")
     flag(m, "runner_exit_is_error",
          re.search(r"if dtls_runner_done \{ return Err\(RtcError::Internal\( \"DTLS transport closed before completing handshake\"\.into\(\), \)\); \}", norm(sd)) is not None,
